@@ -59,6 +59,16 @@ def hNkHour : Handler := do
   let t ← getI
   pure s!"{Nk800.hourOf t} {(Nk800.hourFraction t).1}"
 
+/-- `nk.hour_us timeUs` -> hour tag, microseconds into the hour -/
+def hNkHourUs : Handler := do
+  let t ← getI
+  pure s!"{Nk800.hourOfUs t} {(Nk800.hourFractionUs t).1}"
+
+/-- `nk.subtime start step t num den` -> time of the sub-step in microseconds -/
+def hNkSubTime : Handler := do
+  let start ← getI; let step ← getI; let t ← getI; let num ← getI; let den ← getI
+  pure s!"{Nk800.subTimeUs start step t num den}"
+
 def nkHandlers : List (String × Handler) :=
-  [("nk.serve", hNkServe), ("nk.interp", hNkInterp), ("nk.midx", hNkMidx), ("nk.hour", hNkHour)]
+  [("nk.serve", hNkServe), ("nk.interp", hNkInterp), ("nk.midx", hNkMidx), ("nk.hour", hNkHour), ("nk.hour_us", hNkHourUs), ("nk.subtime", hNkSubTime)]
 end Driver
